@@ -250,6 +250,9 @@ void execute_status(const Plan &plan, Verdict &v, bool c11, bool c12) {
     if (!cfg.with_error_cb) COUNT("fault_no_error_callback_installed");
     cfg.control_err = plan.k("control_err", 0) != 0;   // the SRQ transport fails (as examples/test-tcp-srq does when its control socket is gone)
     if (cfg.control_err) COUNT("fault_srq_callback_reports_failure");
+    cfg.with_reset = plan.k("no_reset_cb", 0) == 0;
+    // a context used through the status/error API only, with no interface at all (C11; nothing can be observed for C12 then)
+    bool no_interface = c11 && !c12 && plan.k("no_interface", 0) != 0;
     World w(cfg);
     w.add_standard_commands();
     w.add_command("FW:ACT", [](World &ww) {
@@ -262,6 +265,10 @@ void execute_status(const Plan &plan, Verdict &v, bool c11, bool c12) {
         return SCPI_RES_OK;
     });
     w.seal();
+    if (no_interface) {
+        w.ctx->interface = nullptr;
+        COUNT("fault_no_interface_at_all");
+    }
     Run run(w, v, c11, c12);
     g_run = &run;
     std::vector<int> clear_masks;
@@ -325,6 +332,7 @@ void execute_status(const Plan &plan, Verdict &v, bool c11, bool c12) {
             cuts = op.a;
             cut_i = 0;
         } else if (op.kind == "msg" && op.has_s) {
+            if (no_interface) continue;   // no transport: only the firmware task acts
             size_t pos = 0;
             unit_begin = run.snap();
             while (pos < op.s.size() && !v.violated) {
@@ -348,6 +356,7 @@ void execute_status(const Plan &plan, Verdict &v, bool c11, bool c12) {
             COUNT("fw_actions");
             clock += (uint64_t) (op.arg(3) & 0xff);
         } else if (op.kind == "idle") {
+            if (no_interface) continue;
             run.last_op = "idle-flush";
             w.flush_input();
             clock += 5000;
@@ -406,7 +415,7 @@ std::string gen_unit(Rng &r, const GenOpts &g) {
             case 14: return "*SRE?";
             case 15: return "SYST:ERR:COUN?";
             case 16: return "STAT:QUES:COND?";
-            case 17: return "*IDN? 1";         // -108
+            case 17: return r.chance(1, 2) ? "*IDN? 1" : "*RST";         // -108 / a command without status semantics
             default: {
                 int kind = (int) r.below(K_NKINDS);
                 int reg = (int) r.below(SCPI_REG_COUNT);
@@ -428,6 +437,8 @@ void generate_status(Rng &r, const GenOpts &g, Plan &p) {
     if (r.chance(1, 5)) p.knob["wr_mode"] = r.range(1, 3);
     if (r.chance(1, 8)) p.knob["no_error_cb"] = 1;
     if (r.chance(1, 8)) p.knob["control_err"] = 1;
+    if (r.chance(1, 6)) p.knob["no_reset_cb"] = 1;
+    if (r.chance(1, 16)) p.knob["no_interface"] = 1;
     long n = r.chance(1, 10) ? r.range(20, thorough ? 200 : 60) : r.range(1, 14);
     int fw_rate = (int) r.below(4);   // 0: none, 1: low, 2: even, 3: high
     for (long i = 0; i < n; i++) {
